@@ -45,6 +45,9 @@ class Authenticator:
             Action.query.value: self.default_roles,
         }
         valid_urls = options.get("relay_urls", "ws://localhost:6969")
+        if isinstance(valid_urls, str):
+            # a single URL: the relay tag must equal it, not merely occur in it
+            valid_urls = [valid_urls]
         for action, roles in options.get("actions", {}).items():
             if isinstance(action, Action):
                 action = action.value
